@@ -29,6 +29,13 @@
 //!                              -> `signature_first_mh`, same getters
 //!   (the C API has no `scaled` getter; bindings compute it from `kmerminhash_max_hash`, as the harness
 //!   does with `scaled_for_max_hash`)
+//!
+//! Stream 5 (`case … downsample-max-hash`): `downsample_max_hash` driven with arbitrary ceilings.
+//!   dsmh <v|t> <s> <m> <track> <hashes>   a sketch created at s (s = 0: a num sketch, num 500) is handed the
+//!                              hashes (abundance i % 3 + 1 for the i-th), then `downsample_max_hash(m)`; answer
+//!                              `scaled=<reported> mh=<ceiling> mins=<kept> [abunds=<..>] compat=<check_compatible
+//!                              of a sketch created at the reported scaled> merged=<its size after merge>`
+//!                              or `err CannotUpsampleScaled`
 use sourmash::cmd::ComputeParameters;
 use sourmash::collection::Collection;
 use sourmash::encodings::HashFunctions;
@@ -181,6 +188,80 @@ fn gen(a: &Args) {
                 }
             }
         }
+    }
+    // stream 5: downsample_max_hash with ceilings that are NOT bit-identical to a canonical one
+    o.case("downsample-max-hash");
+    let n = if thorough { 60_000 } else { 5_000 };
+    const TOP31: u64 = 1 << 31;
+    let mhs = max_hash_for_scaled;
+    for i in 0..n {
+        // the value the sketch is created at
+        let s = match r.below(12) {
+            0..=2 => 1,
+            3..=4 => *r.pick(&[2u64, 3, 10, 100, 1000, 1000, 2000, 10_000]),
+            5..=6 => r.range(1, 3000),
+            7 => r.bits(31).max(1),
+            8 => *r.pick(&[TOP31, TOP31 - 1, 1 << 30]),
+            9 if i % 4 == 0 => 0,
+            _ => r.range(1, 100_000),
+        };
+        // the value the ceiling is aimed at: coarser most of the time, the same, or finer (refused)
+        let t = match r.below(10) {
+            0 => s.max(1),
+            1 => s.saturating_sub(r.range(1, 3)).max(1),
+            2..=4 => (s.max(1) * r.range(2, 10)).min(TOP31),
+            5 => (s + r.range(1, 3)).min(TOP31),
+            6 => *r.pick(&[2u64, 3, 7, 10, 999, 1000, 2000, 65_536, 1_000_003, 1 << 24, TOP31]),
+            _ => r.range(s.max(1), (s.max(1).saturating_mul(1000)).min(TOP31)),
+        };
+        let c = mhs(t);
+        // neighbours of the target ceiling on both sides
+        let up = if t > 1 { mhs(t - 1) } else { u64::MAX };
+        let down = mhs(t + 1);
+        let m = match r.below(16) {
+            0..=1 => c,
+            2 => c.saturating_add(1),
+            3 => c.saturating_sub(1),
+            // integer arithmetic, as a caller would do it
+            4..=5 => u64::MAX / t,
+            6 => ((1u128 << 64) / t as u128).min(u64::MAX as u128) as u64,
+            // between two canonical ceilings: a quarter / almost half of the way to either neighbour
+            7 => c + (up - c) / 4,
+            8 => c - (c - down) / 4,
+            9 => c + (up - c) / 2 - r.below(3).min((up - c) / 2),
+            10 => c - ((c - down) / 2).saturating_sub(r.below(3)),
+            11 => c.saturating_add(r.bits(20)),
+            12 => c.saturating_sub(r.bits(20)),
+            // above the sketch's own ceiling
+            13 => *r.pick(&[u64::MAX, mhs(s).saturating_add(1), mhs(s)]),
+            14 => r.bits(64),
+            _ => *r.pick(&[0u64, 1, 2, 100, 1 << 32, (1 << 33) + 1]),
+        };
+        // hashes around every ceiling in play
+        let own = mhs(s);
+        let mut hs: Vec<u64> = vec![7];
+        for x in [c, m, own, down, up] {
+            for d in [0u64, 1, 2] {
+                if r.chance(2, 3) {
+                    hs.push(x.saturating_sub(d));
+                }
+                if r.chance(1, 2) {
+                    hs.push(x.saturating_add(d));
+                }
+            }
+        }
+        for _ in 0..r.range(0, 4) {
+            hs.push(r.range(1, c.max(2)));
+            hs.push(r.range(m.min(c).max(1), m.max(c).max(1)));
+        }
+        hs.push(r.bits(64));
+        let mut seen = std::collections::HashSet::new();
+        hs.retain(|&h| h != 0 && seen.insert(h));
+        for a in (1..hs.len()).rev() {
+            let b = r.below(a as u64 + 1) as usize;
+            hs.swap(a, b);
+        }
+        o.op(&format!("dsmh {} {} {} {} {}", if r.chance(1, 2) { "t" } else { "v" }, s, m, r.below(2), show_nats(hs)));
     }
     // stream 3: manifests and selection as consumers of the reported value: rows whose scaled is just
     // below / at / just above the request, multiples, num rows (reported scaled 0), rows with both;
@@ -478,6 +559,44 @@ fn step(st: &mut Vec<Signature>, ws: &[&str]) -> String {
                 }
                 Err(e) => e,
             };
+        }
+        "dsmh" => {
+            let n = |i: usize| -> u64 { ws[i].parse().unwrap() };
+            let (s, m, track, hs) = (n(2), n(3), ws[4] == "1", parse_nats(ws[5]));
+            let num = if s == 0 { 500 } else { 0 };
+            let en = |e: sourmash::Error| -> String {
+                format!("err {}", format!("{:?}", e).split(|c: char| !c.is_alphanumeric()).next().unwrap_or(""))
+            };
+            macro_rules! run {
+                ($ty:ident) => {{
+                    let mut a = $ty::new(s, 21, HashFunctions::Murmur64Dna, 42, track, num);
+                    for (i, h) in hs.iter().enumerate() {
+                        a.add_hash_with_abundance(*h, (i % 3 + 1) as u64);
+                    }
+                    match a.downsample_max_hash(m) {
+                        Err(e) => en(e),
+                        Ok(d) => {
+                            let r = d.scaled();
+                            // a sketch CREATED at the value the result reports must accept it
+                            let mut fresh = $ty::new(r, 21, HashFunctions::Murmur64Dna, 42, track, num);
+                            let compat = match fresh.check_compatible(&d) {
+                                Ok(()) => "ok".to_string(),
+                                Err(e) => en(e),
+                            };
+                            let merged = match fresh.merge(&d) {
+                                Ok(()) => fresh.size().to_string(),
+                                Err(e) => en(e),
+                            };
+                            let ab = match d.abunds() {
+                                Some(a) => format!(" abunds={}", show_nats(a)),
+                                None => String::new(),
+                            };
+                            format!("scaled={} mh={} mins={}{} compat={} merged={}", r, d.max_hash(), show_nats(d.mins()), ab, compat, merged)
+                        }
+                    }
+                }};
+            }
+            return if ws[1] == "t" { run!(KmerMinHashBTree) } else { run!(KmerMinHash) };
         }
         "convmh" => {
             return match conv_loaded(ws[1], ws[2].parse().unwrap()) {
